@@ -823,10 +823,19 @@ def _sc_shallow(transport, phase, via_porcelain=False):
         res = c.fetch(path, st["r"], depth=depth)
         tip = res.refs[b"refs/heads/main"]
         via = type(c).__name__ + ".fetch"
+        cs = st["cs"]
+        expected = {"initial": ({cs[3]}, set()), "deepen": ({cs[1]}, {cs[3]}), "unshallow": (set(), {cs[3]})}[phase]
+        got = (set(res.new_shallow or ()), set(res.new_unshallow or ()))
+        out = {"refs": {}, "plain": set(), "via": via}
+        if got != expected and via != "LocalGitClient.fetch":
+            # the client lost a `shallow`/`unshallow` line of the server's answer (before /repo PENDING-2 it polled
+            # for ACKs while sending haves and dropped anything else it read: timing dependent,
+            # F-C09-shallow-line-lost-in-negotiation, fixed) — kept so that a regression is detected and named
+            out["anomaly"] = "shallow-line-lost"
         if phase == "initial":
             st["r"].refs.set_if_equals(b"refs/remotes/origin/main", None, tip)
-            return {"refs": {"refs/remotes/origin/main": tip.decode()}, "plain": set(), "via": via}
-        return {"refs": {}, "plain": set(), "via": via}
+            out["refs"] = {"refs/remotes/origin/main": tip.decode()}
+        return out
     return build, op
 
 
@@ -1285,13 +1294,18 @@ def classify(rec: Rec, j: int, clause: str, subject, state_files: dict) -> str:
             # … under the packed-refs lock, and the new packed-refs has not been renamed in yet
             return "pack-refs-crash-after-loose-unlink"
     if clause in ("object-unreadable", "history-walk-fails", "git-fsck") and rec.intent.get("via") == "LocalGitClient.fetch":
-        # the LOCAL fetch path (Repo.fetch -> find_missing_objects -> graph_walker.update_shallow) rewrites the
-        # target's shallow file before the pack exists: the shallow set has shrunk, no new pack index is in place
+        # the LOCAL fetch path (Repo.fetch -> find_missing_objects -> graph_walker.update_shallow) used to rewrite
+        # the target's shallow file before the pack existed (fixed by /repo PENDING-1; the class stays so that a
+        # regression is named): the shallow set has shrunk, no new pack index is in place
         old = set(parse_shallow(rec.start_files.get("shallow", b"")) or [])
         now = set(parse_shallow(state_files.get("shallow", b"")) or [])
         idx = lambda fs: {f for f in fs if f.startswith("objects/pack/") and f.endswith(".idx")}  # noqa: E731
         if old - now and idx(state_files) == idx(rec.start_files):
             return "local-fetch-shallow-shrunk-before-pack"
+    if rec.intent.get("anomaly") == "shallow-line-lost" and j == len(rec.calls) \
+            and clause in ("object-unreadable", "history-walk-fails", "git-fsck"):
+        # not a crash window: the COMPLETED fetch left the wrong shallow set because the client dropped a line
+        return "smart-fetch-shallow-line-lost-in-negotiation"
     return f"{rec.scn.kind}:{clause}"
 
 
@@ -1737,14 +1751,31 @@ def recorded_fixed() -> dict:
     if "fixed" not in _CACHE:
         out = {}
         base = _translate_dir()
+        anomalies = []
         for scn in fixed_scenarios():
             w = os.path.join(base, scn.name)
-            rec = record(scn, w)
-            with hermetic(Path(w) / "home"):
-                cn = Canon(rec)
-            ev = evaluate(rec, w, False, universe=sorted(cn.objs))
+            for attempt in range(6):
+                # a smart-transport shallow fetch can lose a line of the server's answer (timing dependent client
+                # defect, reported separately): such a recording is evaluated and reported, but the program that
+                # goes into Gen/ and the correspondence is a recording of the intended exchange
+                w_try = w if attempt == 0 else f"{w}-retry{attempt}"
+                try:
+                    rec = record(scn, w_try)
+                except (AssertionError, OSError, KeyError) as e:
+                    if scn.kind != "shallow_fetch" or attempt == 5:
+                        raise
+                    anomalies.append((scn.name, f"{type(e).__name__}: {e}", None, None, None))
+                    continue
+                with hermetic(Path(w_try) / "home"):
+                    cn = Canon(rec)
+                ev = evaluate(rec, w_try, False, universe=sorted(cn.objs))
+                if rec.intent.get("anomaly") and attempt < 5:
+                    anomalies.append((scn.name, rec.intent["anomaly"], rec, cn, ev))
+                    continue
+                break
             out[scn.name] = (rec, cn, ev)
         _CACHE["fixed"] = out
+        _CACHE["anomalies"] = anomalies
     return _CACHE["fixed"]
 
 
@@ -2171,6 +2202,14 @@ def run(ctx: core.Ctx):
     ]
     fixed = recorded_fixed()
     _run_corpus(ctx, fixed)
+    for name, what, rec, cn, ev in _CACHE.get("anomalies", []):
+        ctx.notes.append(f"{name}: transport anomaly while recording ({what}); scenario recorded again")
+        if ev is not None:
+            for j, clause, detail, subj, cls in ev.failures:
+                ctx.count(STREAM, (name, "anomaly", j, clause), True, "anomaly")
+                ctx.oracle_fail(STREAM, {"scenario": name, "j": j, "anomaly": what, "clause": clause,
+                                         "program": [list(map(_short, c)) for c in rec.calls]},
+                                f"{name}: after {j} of {len(rec.calls)} calls: {clause}: {detail}", cls)
     verdicts = {}
     for scn in fixed_scenarios():
         rec, cn, ev, head = run_scenario(ctx, scn, pre=fixed[scn.name], power_loss=scn.name.endswith("_fsync"))
@@ -2216,6 +2255,9 @@ def _run_corpus(ctx: core.Ctx, fixed: dict):
     for f in sorted(d.glob("*.json")):
         c = json.loads(f.read_text())
         name = c.get("scenario")
+        if c.get("force") == "slow-can_read":
+            _forced_race(ctx, c, f.name)
+            continue
         if name not in fixed:
             ctx.notes.append(f"corpus {f.name}: unknown scenario {name}")
             continue
@@ -2226,6 +2268,62 @@ def _run_corpus(ctx: core.Ctx, fixed: dict):
         if not hit and not expect_holds:
             ctx.notes.append(f"corpus witness {f.name} no longer fails (class {c.get('class')})")
         # (a regression is reported by the crash.oracle stream itself: fixed findings suppress nothing)
+
+
+@contextlib.contextmanager
+def slow_can_read(delay: float):
+    """Make the smart-transport clients poll late (the server's answer is already there when they look): the
+    deterministic way to hit the window that otherwise depends on scheduling."""
+    import time
+    from dulwich.client import SubprocessGitClient, TCPGitClient
+    saved = []
+    for cls in (TCPGitClient, SubprocessGitClient):
+        orig = cls._connect
+        saved.append((cls, orig))
+
+        def _connect(self, *a, _orig=orig, **k):
+            proto, can_read, err = _orig(self, *a, **k)
+            if can_read is None:
+                return proto, can_read, err
+            return proto, (lambda: (time.sleep(delay), can_read())[1]), err
+        cls._connect = _connect
+    try:
+        yield
+    finally:
+        for cls, orig in saved:
+            cls._connect = orig
+
+
+def _forced_race(ctx: core.Ctx, c: dict, fname: str):
+    scn = next((s_ for s_ in fixed_scenarios() if s_.name == c["scenario"]), None)
+    if scn is None:
+        ctx.notes.append(f"corpus {fname}: unknown scenario")
+        return
+    w = os.path.join(str(ctx.scratch), "c09", "forced-" + scn.name)
+    try:
+        with slow_can_read(0.25):
+            rec = record(scn, w)
+    except (AssertionError, OSError, KeyError) as e:
+        ctx.notes.append(f"corpus {fname}: the delayed exchange raised {type(e).__name__}: {e}")
+        ctx.count("corpus", fname, True, "raised")
+        return
+    ev = evaluate(rec, w, False)
+    hit = [x for x in ev.failures if x[4] == c.get("class")]
+    expect_holds = c.get("expect") == "holds"        # regression case of a FIXED finding
+    if rec.intent.get("anomaly"):
+        ctx.notes.append(f"corpus {fname}: the late-polling client lost a line of the server's answer ({rec.intent['anomaly']})")
+        if expect_holds and not ev.failures:
+            # e.g. a dropped `unshallow` line leaves a consistent (still shallow) repository: no crash-state failure,
+            # but the exchange is wrong all the same
+            ctx.oracle_fail("corpus", {"scenario": scn.name, "force": c["force"]},
+                            f"{scn.name} with a late-polling client: the fetch result lacks a shallow/unshallow line of the server's answer",
+                            "smart-fetch-shallow-line-lost-in-negotiation")
+    ctx.count("corpus", fname, True, ("still-fails" if hit else "holds") + ("/expected-holds" if expect_holds else ""))
+    for j, clause, detail, subj, cls in ev.failures:
+        ctx.oracle_fail("corpus", {"scenario": scn.name, "force": c["force"], "j": j, "clause": clause},
+                        f"{scn.name} with a late-polling client: after {j} of {len(rec.calls)} calls: {clause}: {detail}", cls)
+    if not hit and not expect_holds:
+        ctx.notes.append(f"corpus witness {fname} no longer fails (class {c.get('class')})")
 
 
 def search(ctx: core.Ctx):
